@@ -306,6 +306,21 @@ def main(argv):
                 okc, clog = build.leanchecker(prop.module)
                 if not okc:
                     broken.append(('leanchecker %s' % prop.module, clog[-4000:]))
+        # the streams of this run use private copies of the two executables, taken while the build lock is
+        # still held: another check running in the same tree rebuilds (and for a moment removes) the shared ones
+        try:
+            import tempfile, shutil, atexit
+            rundir = os.path.join(VERIF, '.run')
+            os.makedirs(rundir, exist_ok=True)
+            snap = tempfile.mkdtemp(prefix='check-%s-' % prop.pid, dir=rundir)
+            atexit.register(shutil.rmtree, snap, True)
+            for attr, path in (('DRV', DRV), ('CORR', CORR)):
+                if os.path.exists(path):
+                    dst = os.path.join(snap, os.path.basename(path))
+                    shutil.copy2(path, dst)
+                    setattr(corr, attr, dst)
+        except OSError as ex:
+            ctx.notes.append('private copies of the executables not made (%s): using the shared ones' % ex)
     theorems = build.property_theorems(prop.module)
     n_obl = len(theorems)
     n_dis = len([t for t in theorems if t in axioms]) if okl else 0
@@ -320,7 +335,7 @@ def main(argv):
     known_open = [e for e in known if e.get('status') == 'open']
 
     # 4: correspondence (also the search when an obligation broke)
-    can_run = okh and okd and os.path.exists(DRV) and os.path.exists(CORR)
+    can_run = okh and okd and os.path.exists(corr.DRV) and os.path.exists(corr.CORR)
     if can_run:
         try:
             # corpus and recorded witnesses first
